@@ -45,6 +45,19 @@ def generate(seed, tier="quick"):
     prof = V.draw_profile(sub(seed, "profile"))
     prof.special = [s for s in prof.special if s not in ("norepr",)]
     prog = W.gen_program(rng, prof, {"prev": PREV, "styles": ["rec"], "n_sites": (1, 5), "n_tests": (1, 3), "max_obs": 5, "idle": 0.25})
+    arng = sub(seed, "access")
+    n_acc = 0
+    for f in prog["files"]:
+        for sid, s in f["sites"].items():
+            # a key of an existing dict sub-snapshot is fetched (s[key]) but nothing is compared with it in this session:
+            # the key counts as accessed and must not be trimmed
+            if s["op"] == "item" and s["prev"] is not None and s["place"] in ("func", "module", "lam"):
+                used = [e["key"] for t in f["tests"] for e in t["events"] if e.get("site") == sid]
+                spare = [k for k, _ in s["prev"][1] if not any(V._safe_eq(V.pyval(k), V.pyval(u)) for u in used)]
+                if spare and arng.random() < 0.7:
+                    n_acc += 1
+                    arng.choice(f["tests"])["events"].append({"t": "cmp", "eid": f"acc{n_acc}", "site": sid, "key": arng.choice(spare), "access_only": True,
+                                                              "vals": [["int", 0]], "style": "rec"})
     mrng = sub(seed, "mutation")
     if mrng.random() < 0.2:
         # one site observes the same object several times while the test mutates it in between
@@ -189,7 +202,10 @@ def execute(case, ctx):
         m = SessionModel(src, ops, approved).run(events, V.pyval)
         new, res = sim.run_session(ctx, driver, files, {"flags": flags_for(driver, approved), "fmt": fmt})
         if not sim.session_completed(driver, res):
-            discard("session-did-not-complete(C18)")
+            if approved:
+                out["violations"].append(sim.completion_violation(driver, res, f"step {si} approved={sorted(approved)}"))
+            else:
+                discard("session-did-not-complete(C18)")
             return out
         if driver == "inline" and res.get("raises"):
             discard("test-raised")
